@@ -223,14 +223,18 @@ Record sstream := { ss_j : jstate sigm;
 (* fdo::NameOwnerChanged::from_message: a signal with this interface and member *)
 Definition is_noc (m : sigm) : bool := (s_iface m =? I_DBUS) && (s_member m =? M_NOC).
 
-(* SignalStream::filter: (yield it?, new src_unique_name); `signal.args()?` fails on any other body *)
+(* SignalStream::filter (as repaired by 0bffda5d): (yield it?, new src_unique_name).  A NameOwnerChanged whose
+   sender is not org.freedesktop.DBus is dropped without a look at its arguments; `signal.args()?` fails on any
+   body that is not (sss) *)
 Definition ss_filter (src : option N) (m : sigm) : bool * option N :=
   if opt_eqb (s_sender m) src then (true, src)
   else if is_noc m then
-    match s_body m with
-    | BNoc _ _ new => (false, new)
-    | _ => (false, src)
-    end
+    if opt_eqb (s_sender m) (Some DRIVER) then
+      match s_body m with
+      | BNoc _ _ new => (false, new)
+      | _ => (false, src)
+      end
+    else (false, src)
   else (false, src).
 
 Definition ss_join (st : sstream) (before : option N) :=
@@ -288,22 +292,21 @@ Record world := { w_todo : list wmsg;     (* not yet read from the socket *)
                   w_log : list N;         (* calls made, latest first *)
                   w_ph : phase;
                   w_out : list N;         (* sequence numbers yielded to the consumer, latest first *)
-                  w_start : N;            (* w_seq when the stream was handed to the caller *)
-                  w_lost : bool }.        (* a buffered NameOwnerChanged without new owner was dropped *)
+                  w_start : N }.          (* w_seq when the stream was handed to the caller *)
 
 Definition ncalls (w : world) : N := N.of_nat (length (w_log w)).
 
 Definition init_world (h : list wmsg) : world :=
-  {| w_todo := h; w_seq := 0; w_reps := 0; w_log := []; w_ph := PhStart; w_out := []; w_start := 0; w_lost := false |}.
+  {| w_todo := h; w_seq := 0; w_reps := 0; w_log := []; w_ph := PhStart; w_out := []; w_start := 0 |}.
 
 Definition set_ph (w : world) (ph : phase) : world :=
   {| w_todo := w_todo w; w_seq := w_seq w; w_reps := w_reps w; w_log := w_log w; w_ph := ph;
-     w_out := w_out w; w_start := w_start w; w_lost := w_lost w |}.
+     w_out := w_out w; w_start := w_start w |}.
 
 (* send a call: it gets the next number *)
 Definition call (w : world) (what : N) (ph : N -> phase) : world :=
   {| w_todo := w_todo w; w_seq := w_seq w; w_reps := w_reps w; w_log := what :: w_log w;
-     w_ph := ph (ncalls w + 1); w_out := w_out w; w_start := w_start w; w_lost := w_lost w |}.
+     w_ph := ph (ncalls w + 1); w_out := w_out w; w_start := w_start w |}.
 
 (* ---- the socket reader: one message *)
 Definition deliver_sig (cf : cfg) (t : N) (s : sigm) (ph : phase) : phase :=
@@ -331,13 +334,12 @@ Definition tick (cf : cfg) (w : world) : option world :=
   | WSig s :: rest =>
       let t := w_seq w + 1 in
       Some {| w_todo := rest; w_seq := t; w_reps := w_reps w; w_log := w_log w;
-              w_ph := deliver_sig cf t s (w_ph w); w_out := w_out w; w_start := w_start w; w_lost := w_lost w |}
+              w_ph := deliver_sig cf t s (w_ph w); w_out := w_out w; w_start := w_start w |}
   | WRep p :: rest =>
       if w_reps w <? ncalls w then
         let t := w_seq w + 1 in
         Some {| w_todo := rest; w_seq := t; w_reps := w_reps w + 1; w_log := w_log w;
-                w_ph := deliver_rep t (w_reps w + 1) p (w_ph w); w_out := w_out w; w_start := w_start w;
-                w_lost := w_lost w |}
+                w_ph := deliver_rep t (w_reps w + 1) p (w_ph w); w_out := w_out w; w_start := w_start w |}
       else None
   end.
 
@@ -350,16 +352,15 @@ Definition owner_poll (c : N) (j : jstate nitem) (qn : queue sigm) (fut : option
             (fun f b => let '(r, f') := fut_poll c f b in (map_pres IRight r, f'))
             j qn fut None.
 
-(* "Let's take into account any buffered NameOwnerChanged signal": (src', a release was dropped) *)
-Definition apply_queued (j : jstate nitem) (src : option N) : option N * bool :=
+(* "Let's take into account any buffered NameOwnerChanged signal" (as repaired by 902c9069: a release counts) *)
+Definition apply_queued (j : jstate nitem) (src : option N) : option N :=
   match j with
   | JA (ILeft m) _ =>
       match s_body m with
-      | BNoc nm _ (Some o) => if nm =? NAME_W then (Some o, false) else (src, false)
-      | BNoc nm _ None => (src, nm =? NAME_W)
-      | _ => (src, false)
+      | BNoc nm _ new => if nm =? NAME_W then new else src
+      | _ => src
       end
-  | _ => (src, false)
+  | _ => src
   end.
 
 Definition client_step (cf : cfg) (w : world) : world :=
@@ -378,10 +379,7 @@ Definition client_step (cf : cfg) (w : world) : world :=
   | PhOwner c j qn fut =>
       let '(r, j', qn', fut') := owner_poll c j qn fut in
       let resolved (src : option N) :=
-        let '(src', lost) := apply_queued j' src in
-        let w' := call w C_ADDMATCH (fun c' => PhAddS c' src' (Some qn') []) in
-        {| w_todo := w_todo w'; w_seq := w_seq w'; w_reps := w_reps w'; w_log := w_log w'; w_ph := w_ph w';
-           w_out := w_out w'; w_start := w_start w'; w_lost := w_lost w' || lost |} in
+        call w C_ADDMATCH (fun c' => PhAddS c' (apply_queued j' src) (Some qn') []) in
       match r with
       | RItem (ILeft m) _ =>
           match noc_new m with
@@ -400,7 +398,7 @@ Definition client_step (cf : cfg) (w : world) : world :=
       | (RItem _ _, _) =>
           {| w_todo := w_todo w; w_seq := w_seq w; w_reps := w_reps w; w_log := w_log w;
              w_ph := PhReady {| ss_j := JNone; ss_qs := []; ss_qn := qn; ss_src := src |};
-             w_out := w_out w; w_start := w_seq w; w_lost := w_lost w |}
+             w_out := w_out w; w_start := w_seq w |}
       | (_, qr') => set_ph w (PhAddS c src qn qr')
       end
   | PhReady _ | PhFailed | PhPanic => w
@@ -413,7 +411,7 @@ Definition consumer_poll (w : world) : world :=
       match ss_poll (ss_fuel st) st None with
       | Some (RItem _ t, st') =>
           {| w_todo := w_todo w; w_seq := w_seq w; w_reps := w_reps w; w_log := w_log w; w_ph := PhReady st';
-             w_out := t :: w_out w; w_start := w_start w; w_lost := w_lost w |}
+             w_out := t :: w_out w; w_start := w_start w |}
       | Some (_, st') => set_ph w (PhReady st')
       | None => w
       end
